@@ -39,11 +39,14 @@ func HarnessC05Steps(n int) {
 	where := verifChoose("where", n+2) // step index, n = job outputs, n+1 = environment.url
 	// the reference alone, or as the left operand of a logical operator whose result is narrowed
 	refExpr := "steps." + X + ".outputs.o"
-	switch verifChoose("embedding", 3) {
+	switch verifChoose("embedding", 4) {
 	case 1:
 		refExpr = "(" + refExpr + " || 'a') && 'b'"
 	case 2:
 		refExpr = "!(" + refExpr + " || false) || 'v'"
+	case 3:
+		// the same name as a string literal in brackets (either letter case, like the dotted form)
+		refExpr = "steps['" + X + "'].outputs.o"
 	}
 	ref := s("echo ${{ " + refExpr + " }}")
 	// which field of the step carries the reference
